@@ -48,6 +48,12 @@ pub proof fn lemma_glue_wait_timeout(f: SigFacts, b: bool)
     ensures b ==> f.delivered, !b ==> f.reached_deadline || f.seen_terminated,
 {}
 
+// [U2 O-wait.final-only]  ==>  [U1 Signal::wait (T5): b == self.delivered()]
+pub proof fn lemma_glue_wait(f: SigFacts, b: bool)
+    requires r2a(f), (b ==> f.seen_unlocked) && (!b ==> f.seen_terminated),
+    ensures b == f.delivered,
+{}
+
 // [U2 O-is_terminated]  ==>  [U1 Signal::is_terminated: b ==> !self.delivered()]
 pub proof fn lemma_glue_is_terminated(f: SigFacts, b: bool)
     requires r2a(f), b ==> f.seen_terminated,
